@@ -10,6 +10,10 @@
     the statement allows it - never a request, never a write other than a schedule fragment, nothing
     expired unless asked for - and every stored line is accepted again by the decoder.
 
+(c) replay order - the real ``get_state`` over three live messages whose time stamps are any permutation
+    of the order the message stores are iterated in, then the real ``_restore_cached_packets``: the dict
+    reaches the replaying transport in time-stamp order (the order the source gateway saw the packets).
+
 Equality of the schemas of two gateways and idempotence of restoring into a populated gateway need the
 entity layer and are outside what is encoded."""
 from __future__ import annotations
@@ -23,8 +27,8 @@ from symx.runner import Query
 PROPERTY = "C16"
 LEVEL = "other"
 EXPLANATION = __doc__
-FUNCTIONS = ["ramses_rf.gateway:Gateway.get_state", "ramses_tx.packet:Packet.__repr__", "ramses_tx.packet:Packet.from_dict", "ramses_tx.packet:Packet._partition", "ramses_tx.message:Message._expired", "ramses_tx.frame:Frame._hdr", "ramses_tx.frame:Frame._ctx"]
-BOUNDS = {"quick": {"storage format": "payload n in {1, 3, 8, 24} bytes, 3 address shapes, all fields symbolic", "filter": "2 stored messages, each any of 12 verb/code kinds, ages solver reals in [0, 10^6] s"},
+FUNCTIONS = ["ramses_rf.gateway:Gateway.get_state", "ramses_rf.gateway:Gateway._restore_cached_packets", "ramses_tx.packet:Packet.__repr__", "ramses_tx.packet:Packet.from_dict", "ramses_tx.packet:Packet._partition", "ramses_tx.message:Message._expired", "ramses_tx.frame:Frame._hdr", "ramses_tx.frame:Frame._ctx"]
+BOUNDS = {"quick": {"storage format": "payload n in {1, 3, 8, 24} bytes, 3 address shapes, all fields symbolic", "filter": "2 stored messages, each any of 12 verb/code kinds, ages solver reals in [0, 10^6] s", "order": "3 live messages, all 6 permutations of store order vs time order"},
           "thorough": {"storage format": "n in {1, 2, 3, 6, 8, 24, 48}", "filter": "3 stored messages"}}
 OUTSIDE = ["equality of the schemas of the source and the restored gateway; restoring twice / into a populated gateway (entity layer)", "two stored packets with the same time stamp (the snapshot is keyed by it)", "the symbolic time stamp: a fixed one is used (dt.fromisoformat is C code)"]
 STUBS = c13.STUBS[:2]
@@ -124,6 +128,62 @@ def oracle_filter(env, msgs, tags, inc, pkts):
                 env.check(False, "C16:stored-line-is-accepted-by-the-decoder", info=f"{tag}: {type(e).__name__}")
 
 
+PERMS = ["012", "021", "102", "120", "201", "210"]
+ORDER_KINDS = ["I-30C9", "RP-2349", "I-0008"]
+
+
+def run_order(env):
+    """snapshot by the real get_state -> the real _restore_cached_packets: the packets reach the replaying
+    transport in the order the source gateway received them (by time stamp), whatever order the message
+    stores are iterated in.  FileTransport._reader replays its dict in iteration order (decided under C01
+    'stream') and the dispatcher's array-fragment merge depends on that order, so a snapshot replayed out
+    of order does not rebuild the same set of packets."""
+    from ramses_rf import gateway as GW
+    from symx.vloop import VLoop, running
+
+    perm = tuple(int(c) for c in env.choice("db_order", PERMS))
+    msgs = [G.mk_msg(dict(G.FRAMES)[ORDER_KINDS[j]], perm[j], 1, env.symbolic) for j in range(3)]  # all live (1 s old)
+    handler = lambda m: None  # noqa: E731
+    g = G.mk_gateway(handler, False, False, [G._Dev(msgs)])
+    schema, pkts = g.get_state(include_expired=env.flag("include_expired"))
+    seen = []
+    loop = VLoop(0)
+
+    def protocol_factory(*a, **k):
+        return object()
+
+    async def transport_factory(protocol, *a, packet_dict=None, **k):
+        seen.extend(list(packet_dict))
+
+        class T:
+            def get_extra_info(self, name, default=None):
+                fut = loop.create_future()
+                fut.set_result(None)
+                return fut
+
+        return T()
+
+    g2 = G.mk_gateway(handler, False, False, [])
+    saved = (GW.protocol_factory, GW.transport_factory)
+    GW.protocol_factory, GW.transport_factory = protocol_factory, transport_factory
+    try:
+        with running(loop):
+            task = loop.create_task(g2._restore_cached_packets(pkts))
+        loop.run(until=task)
+        task.result()
+    finally:
+        GW.protocol_factory, GW.transport_factory = saved
+    env.check(len(seen) == 3, "C16:every-saved-packet-is-replayed", info=str(seen))
+    env.check(seen == sorted(seen), "C16:snapshot-is-replayed-in-the-order-received", info=f"store order {perm} -> replayed {[x[17:19] for x in seen]}")
+    return perm, seen
+
+
+def h_order(ctx):
+    env = c13.Env(ctx=ctx)
+    run_order(env)
+    return "ok"
+
+
 def h_filter(ctx, n):
     env = c13.Env(ctx=ctx)
     out = run_filter(env, n)
@@ -141,6 +201,8 @@ def queries(tier, seed):
             qs.append(Query(f"format[n={n}|s{shape}]", lambda c, a=(n, shape): h_format(c, *a), {"h": "format", "n": n, "shape": shape}, group="format", max_secs=600 if thorough else 200, max_paths=100_000, weight=n / 8 + 1, split_depth=6))
     for n in ((1, 2, 3) if thorough else (1, 2)):
         qs.append(Query(f"filter[n={n}]", lambda c, n=n: h_filter(c, n), {"h": "filter", "n": n}, group="filter", max_secs=600 if thorough else 200, max_paths=300_000, weight=4 * n, split_depth=6))
+
+    qs.append(Query("order[n=3]", h_order, {"h": "order"}, group="order", max_secs=200, max_paths=1000, weight=1))
 
     def canary(c):
         env = c13.Env(ctx=c)
@@ -179,6 +241,10 @@ def replay(item):
             bad.append(f"rejected on restore: {type(e).__name__}: {e}")
         return {"reproduced": bool(bad), "observed": f"stored {text!r}: " + "; ".join(bad), "signature": f"format: {label.split(':', 1)[1]}"}
     env = c13.Env(cex=cex)
+    if prm["h"] == "order":
+        perm, seen = run_order(env)
+        failed = [(l, i) for l, i in env.failed if l == label]
+        return {"reproduced": bool(failed), "observed": f"message stores iterated in time order {perm}: replayed as {seen} :: {failed[:1]}"[:500], "signature": f"order: {label.split(':', 1)[1]}"}
     out = run_filter(env, prm["n"])
     oracle_filter(env, *out)
     failed = [(l, i) for l, i in env.failed if l == label]
